@@ -74,9 +74,10 @@ func payloadMarkers(c *Ctx, pa *provAnalysis, fr *Frame) map[string]bool {
 }
 
 func checkC01(c *Ctx, r *Report) {
-	r.Rules = []string{"D1 payload dispatch matrix (prepared type x packager)", "F1 header field provenance per entry class", "F1-body entry bodies read from the source and copied verbatim", "F1-only every payload member is written for a contents entry", "F2 default mode is stat &^ umask, explicit modes verbatim", "D2 directory / owner defaults", "parents for every entry (shared with C05)", "F1-link-verbatim symlink targets are plain reads of the entry's source", "plan-W1 plan entries and their file info are fresh copies (imported from C11)", "plan-G-*/O5-parents-clean path discipline of the planner (imported from C05)"}
+	r.Rules = []string{"D1 payload dispatch matrix (prepared type x packager)", "F1 header field provenance per entry class", "F1-body entry bodies read from the source and copied verbatim", "F1-only every payload member is written for a contents entry", "F2 default mode is stat &^ umask, explicit modes verbatim", "D2 directory / owner defaults", "parents for every entry (shared with C05)", "F1-link-verbatim symlink targets are plain reads of the entry's source", "plan-W1 plan entries and their file info are fresh copies (imported from C11)", "plan-G-*/O5-parents-clean path discipline of the planner (imported from C05)", "F2-perm a directory's mode taken from disk is reduced to its permission bits", "F2-stat default file info is taken with os.Stat (through links)", "fresh-T6-no-carried-state nothing on the packaging paths keeps results in package-level state (rule of C07)", "plan-K2c an occupant fails or is replaced (imported from C05)"}
 	r.Explanation = "Structural necessary conditions of payload fidelity. (D1) each packager's payload writer — the function that loops over the prepared contents, branches on the entry type and writes archive headers named after destinations — is abstractly evaluated for every prepared entry type; the set of live mechanisms (directory header, link header, read of the entry's source, header written/added) is compared with the table transcribed from the statement: directories -> directory entry without reading a source (implied directories skipped in rpm only), symlinks -> link entry without reading a source, file and config types (and rpm's doc/licence/readme) -> source opened and an entry written, ghost -> header only, the deb changelog -> a generated member. (F1) for every tar header / rpm file record created for payload entries, the definitions that reach the write (flow-sensitive) must feed name from the destination, mode from the entry's mode (an explicit store over tar.FileInfoHeader's permission-only mode), owner from owner and group from group (not swapped), modification time from the entry's mtime, link target from the entry's source. (F1-body) every file opened or read under a path derived from a contents entry on the payload writer's call graph is named by the entry's source alone, and the bytes read reach an archive write, a copy into the archive or the rpm file body through conversions only (no slicing, limiting or rewriting step). (F1-only) every tar header write / rpm AddFile on the payload writer's call graph lies in the body of a loop that has loaded an element of the prepared contents, or in a function reached only from such loop bodies: the writer adds no member of its own. (F2) in the planner the mode taken from disk is stat-mode AND-NOT umask and is stored only when no mode is set. (D2) directory mode defaults to 0755 and owner/group to root. Equality of the bytes on disk at packaging time with what a later reader sees, glob results and concrete mode values are not decided."
 	r.Explanation += " (F1-link-verbatim) the target of every symlink member is a plain read of the entry's source. Imported: the plan's entries and their file info are fresh copies (C11 W1), and the planner's path discipline (C05 G-base, G-prefix, G-cutset, G-rooted, O5-parents-clean)."
+	r.Explanation += " (F2-perm) where the planner marks an entry a directory, the mode it takes from disk is <stat mode>.Perm() &^ umask. (F2-stat) the FileInfo whose mode/size/time become an entry's defaults comes from os.Stat, not os.Lstat. (fresh-T6) rule of C07 applied to payload selection: no package-level write on packaging paths (a memoised glob result would omit files added later)."
 	r.Assumptions = []string{
 		"io.Copy / tar.Writer.Write / rpmpack copy the bytes they are handed",
 		"tar.FileInfoHeader(fi, link) sets ModTime from fi.ModTime(), Size from fi.Size() and Mode from fi.Mode().Perm() (hand model)",
@@ -150,7 +151,7 @@ func checkC01(c *Ctx, r *Report) {
 	checkC05(c, tmp5)
 	n5 := 0
 	for _, o := range tmp5.Obls {
-		if o.Rule == "G-base" || o.Rule == "G-prefix" || o.Rule == "G-cutset" || o.Rule == "G-rooted" || o.Rule == "O5-parents-clean" || o.Rule == "O5-parents" || o.Rule == "K2" || o.Rule == "K2b" || o.Rule == "K3" || (o.Rule == "D1+D5" && (strings.Contains(o.Construct, `tag=""`))) {
+		if o.Rule == "G-base" || o.Rule == "G-prefix" || o.Rule == "G-cutset" || o.Rule == "G-rooted" || o.Rule == "O5-parents-clean" || o.Rule == "O5-parents" || o.Rule == "K2" || o.Rule == "K2b" || o.Rule == "K2c" || o.Rule == "K3" || (o.Rule == "D1+D5" && (strings.Contains(o.Construct, `tag=""`))) {
 			o.Rule = "plan-" + o.Rule
 			r.Obls = append(r.Obls, o)
 			n5++
@@ -161,6 +162,10 @@ func checkC01(c *Ctx, r *Report) {
 	// file info with the caller's entry (otherwise a default written for one
 	// entry - the directory mode, say - shows up as another entry's explicit
 	// value)
+	// what a build ships is read at that build: nothing on the packaging paths
+	// keeps results (glob matches, file lists, bodies) in package-level state
+	// for the next one (rule of C07)
+	checkNoCarriedState(c, r, "fresh-T6-no-carried-state")
 	r.Floor("plan-W1", importRules(c, r, checkC11, "plan-", []string{"W1-entry-fresh", "W1-fileinfo-fresh"}, nil, "PrepareForPackager"), 2)
 	r.Exhaustive = true
 }
@@ -441,6 +446,56 @@ func checkPlannerDefaults(c *Ctx, r *Report) {
 					fromDisk := p.hasPrefix("call:(io/fs.FileInfo).Mode") || p.hasPrefix("call:(io/fs.DirEntry).Type") || p.hasPrefix("call:(os.FileInfo).Mode") || strings.Contains(p.String(), ".Mode") || strings.Contains(p.String(), ".Type")
 					umask := isUmaskOperand(v.Y)
 					r.Check(v.Op == token.AND_NOT && fromDisk && umask, "F2", construct, c.instrPos(st), fmt.Sprintf("mode taken from disk must be stat-mode &^ umask (operator %s, from disk=%v, umask operand=%v)", v.Op, fromDisk, umask))
+					// "permission bits": what a stat reports also carries the file
+					// type (and Go's own encoding of setuid/setgid/sticky) in the
+					// high bits; the packagers other than deb write the stored
+					// mode into the archive as it stands
+					// (decided where the entry is known to be a directory: the same
+					// block marks it TypeDir. For an entry of unknown kind deb reads
+					// the type bits of the stored mode to recognise devices and
+					// fifos, so they cannot be dropped there.)
+					marksDir := false
+					for _, i2 := range st.Block().Instrs {
+						if s2, isSt := i2.(*ssa.Store); isSt {
+							if fa2, isFA := s2.Addr.(*ssa.FieldAddr); isFA && isContentPtr(fa2.X.Type()) && fieldName(fa2.X.Type(), fa2.Field) == "Type" {
+								if k, isK := s2.Val.(*ssa.Const); isK && isConstString(k) && constString(k) == typeDir {
+									marksDir = true
+								}
+							}
+						}
+					}
+					if p.hasPrefix("call:(io/fs.FileInfo).Mode") || p.hasPrefix("call:(os.FileInfo).Mode") {
+						perm := false
+						if cl, isCl := v.X.(*ssa.Call); isCl {
+							if o := calleeObj(cl); o != nil && o.Name() == "Perm" {
+								perm = true
+							}
+						}
+						// ... and it is the mode of the file whose bytes are shipped:
+						// the source is opened through links, so it is stat'ed
+						// through links as well
+						var mv ssa.Value = v.X
+						if cl, isCl := mv.(*ssa.Call); isCl && perm && len(cl.Call.Args) > 0 {
+							mv = cl.Call.Args[0]
+						}
+						if mc, isMC := mv.(*ssa.Call); isMC && mc.Call.IsInvoke() {
+							if ex, isEx := mc.Call.Value.(*ssa.Extract); isEx {
+								if sc, isSC := ex.Tuple.(*ssa.Call); isSC {
+									if o := calleeObj(sc); o != nil && qualifiedName(o) == "os.Lstat" {
+										r.Fail("F2-stat", construct+": stat follows links", c.instrPos(sc),
+											"the default mode, size and time of an entry are taken with os.Lstat while its bytes are read through the link: an entry whose source is a symbolic link is shipped with the link's own mode (0777|symlink) and size")
+									} else if o != nil && qualifiedName(o) == "os.Stat" {
+										r.Pass("F2-stat", construct+": stat follows links", c.instrPos(sc), "os.Stat")
+									}
+								}
+							}
+						}
+						if !marksDir {
+							perm = true
+						}
+						r.Check(perm, "F2-perm", construct+": permission bits only", c.instrPos(st),
+							"the mode read from disk is stored with its file-type bits ("+shorten(valueExpr(c, v.X, 0), 60)+"): a directory replicated from a tree gets mode 020000000755 in apk, ipk and archlinux archives and in .MTREE, while deb writes 0755; expected <stat mode>.Perm() &^ umask")
+					}
 				case *ssa.Const:
 					// default for directories
 					r.Check(v.Value != nil && v.Int64() == 0o755, "D2", construct, c.instrPos(st), fmt.Sprintf("constant mode %#o; directories default to 0755", v.Int64()))
